@@ -723,6 +723,10 @@ class PolytopeCheck(Check):
                 born[i] = True
                 ops.append({"op": "create", "inst": i, "observe": rng.choice(["all", "all", "none"])})
                 continue
+            if rng.random() < 0.05:
+                # the object is copied (deepcopy / pickle round trip) and the history continues on the copy
+                ops.append({"op": "clone", "inst": i, "how": rng.choice(["deepcopy", "pickle"])})
+                continue
             if rng.random() < 0.18:
                 # other public methods of the object, called between the operations the property talks about
                 ops.append({"op": "aux", "inst": i,
@@ -865,6 +869,15 @@ class PolytopeCheck(Check):
                 poly = insts[i]
                 touched.add(i)
                 what = f"step {step} {kind}#{i}"
+                if op["op"] == "clone":
+                    import copy
+                    import pickle
+                    with lib_call(what + f" {op['how']}"):
+                        insts[i] = copy.deepcopy(poly) if op["how"] == "deepcopy" else pickle.loads(pickle.dumps(poly))
+                    faults["clone_" + op["how"]] = faults.get("clone_" + op["how"], 0) + 1
+                    log.add(f"poly{i}", "clone", op["how"])
+                    sig.append(("clone", i, op["how"]))
+                    continue
                 if op["op"] == "aux":
                     # calls the property does not talk about; they must not disturb what it does talk about
                     # (what they return or raise is not judged: the statement is silent about them)
